@@ -80,6 +80,14 @@ RECURSIVE MaskFrom(_, _, _)
 MaskFrom(slots, j, kinds) == IF j > Len(slots) THEN 0
                              ELSE (IF slots[j].k \in kinds THEN (2 ^ slots[j].len - 1) * (2 ^ slots[j].pos) ELSE 0)
                                   + MaskFrom(slots, j + 1, kinds)
+\* RegisterState{} as the constructor / Reset() leaves it (register.h member initialisers)
+ResetRegs ==
+    LET z == Unpack([i \in 1 .. NREG |-> 0]) IN
+    [z EXCEPT !.cpc = 1, !.crep = 1, !.ccnta = 1, !.sata = 1, !.cmd = 1, !.mod0c = 1,
+              !.arstep = <<1, 4, 5, 3>>, !.arpstepi = <<1, 4, 5, 3>>, !.arpstepj = <<1, 4, 5, 3>>,
+              !.aroffset = <<0, 1, 2, 0>>, !.arpoffseti = <<0, 1, 2, 0>>, !.arpoffsetj = <<0, 1, 2, 0>>,
+              !.arrn = <<0, 4, 2, 6>>, !.arprni = <<0, 1, 2, 3>>, !.arprnj = <<0, 1, 2, 3>>]
+
 WritableMask(word) == MaskFrom(Words[word], 1, {"rw", "dbl", "acce"})
 DefinedMask(word)  == MaskFrom(Words[word], 1, {"rw", "ro", "dbl", "acce", "lp"})
 =============================================================================
